@@ -346,6 +346,13 @@ def ix1(prog, rr):
                 # the append that follows in the same block
                 app = [x for x in body[i + 1:] if isinstance(x, ast.Expr) and isinstance(x.value, ast.Call) and call_name(x.value) == "append"]
                 if not app:
+                    before = [x for x in body[:i] if isinstance(x, ast.Expr) and isinstance(x.value, ast.Call) and call_name(x.value) == "append"
+                              and recv_text(x.value) == lst]
+                    if before:
+                        n += 1
+                        rr.inst("%s.%s: %s = len(%s) after the append" % (cn, m.name, norm(t), lst))
+                        rr.finding(m, st, "%s.%s" % (cn, m.name), "IX1: %s is taken as len(%s) after the item was appended: it is one past the item's position"
+                                   % (norm(t), lst), text="index after append")
                     continue
                 n += 1
                 first = app[0].value
@@ -358,7 +365,7 @@ def ix1(prog, rr):
 
 
 # --------------------------------------------------------------------------------------- CV17
-@rule("CV17", ["C10", "C11", "C13"], "a bin container hands each child the base plus the number of bins of the children before it", engine="DF", floor=2)
+@rule("CV17", ["C10", "C11", "C13", "C19"], "a bin container hands each child the base plus the number of bins of the children before it", engine="DF", floor=2)
 def cv17(prog, rr):
     n = 0
     base = prog.cls("CoverpointBinModelBase")
@@ -383,7 +390,296 @@ def cv17(prog, rr):
                     rr.finding(m, call, c.name + ".finalize", "CV17: the base index handed to the child (%s) does not depend on the running bin count "
                                "%s: a child that holds several bins overlaps the next child's indices, so hits are reported for the wrong bin"
                                % (norm(arg), sorted(accs) or ""), text="child base not cumulative")
+                elif len(m.params) >= 2 and not ({m.params[1], "self." + m.params[1]} & set(names_in(arg))):
+                    rr.finding(m, call, c.name + ".finalize", "CV17: the child's base index (%s) leaves out the container's own base %s: the children are "
+                               "numbered from 0, so a container that is not the first entry of its coverpoint reports its hits on the bins of the "
+                               "entries before it" % (norm(arg), m.params[1]), text="child base without container base")
                 elif loopvars & set(names_in(arg)) - {recv_text(call)}:
                     rr.finding(m, call, c.name + ".finalize", "CV17: the child's base index (%s) is computed from the loop position" % norm(arg),
                                text="child base from position")
     rr.require(n >= 2, "bin containers' finalize loops not recognised (%d)" % n)
+
+
+# --------------------------------------------------------------------------------------- CV18
+@rule("CV18", ["C11", "C10"], "a callable reference (iff=lambda ...) hands the callable's result to the truth test unchanged", engine="DF", floor=1)
+def cv18(prog, rr):
+    f = prog.method("ExprRefModel", "val")
+    rets = [n for n in walk_local(f.node) if isinstance(n, ast.Return) and n.value is not None]
+    rr.require(rets, "ExprRefModel.val has no return")
+    defs = local_defs(f.node)
+    aug = {n.target.id for n in walk_local(f.node) if isinstance(n, ast.AugAssign) and isinstance(n.target, ast.Name)}
+    for r in rets:
+        v = r.value
+        srcs = [v] if not isinstance(v, ast.Name) else defs.get(v.id, [])
+        ok = bool(srcs) and all(norm(s) == "self.ref()" for s in srcs) and not (isinstance(v, ast.Name) and v.id in aug)
+        rr.inst("ExprRefModel.val returns %s (transparent=%s)" % (norm(v), ok))
+        if not ok:
+            rr.finding(f, r, "ExprRefModel.val", "CV18: the value of a callable reference is altered between the user's callable and its consumer "
+                       "(returns %s): an iff callable returning a truthy value other than 1 (flags & 2, a count) can evaluate to false and gate the "
+                       "coverpoint or cross off although its condition holds" % norm(v), text="ref value altered")
+
+
+# --------------------------------------------------------------------------------------- LOOP1
+def _direct_breaks(loop):
+    return [st for st in loop.body if isinstance(st, ast.Break)]
+
+
+def _loop1(prog, rr, funcs, what):
+    n = 0
+    for f in funcs:
+        for lp in [x for x in walk_local(f.node) if isinstance(x, (ast.For, ast.While))]:
+            if not any(isinstance(x, ast.Break) for x in ast.walk(lp)):
+                continue
+            n += 1
+            for b in _direct_breaks(lp):
+                rr.finding(f, b, _q(f), "LOOP1: the search loop over %s ends its first iteration with an unconditional break: only the first "
+                           "candidate is ever examined%s" % (norm(lp.iter) if isinstance(lp, ast.For) else norm(lp.test), what), text="unconditional break")
+    rr.inst("search loops (with a break) examined: %d" % n)
+    return n
+
+
+@rule("LOOP1c", ["C12", "C10", "C13"], "search loops in the coverage registry and models examine every candidate (no unconditional break)", engine="DF", floor=1)
+def loop1c(prog, rr):
+    fs = [f for f in prog.funcs if f.module.name.endswith("coverage_registry") or ".model.cover" in f.module.name or f.module.name == "vsc.coverage"]
+    n = _loop1(prog, rr, fs, " (register_cg: a new instance is compared with the first registered shape only, so further instances of a later shape "
+                             "each get a type model of their own and no type holds the sum of their hits)")
+    rr.require(n >= 1, "no search loop found in the coverage registry/models")
+
+
+@rule("LOOP1s", ["C01", "C02"], "search loops on the solve path examine every candidate (no unconditional break)", engine="DF", floor=1)
+def loop1s(prog, rr):
+    from sa.cg import solve_path
+    n = _loop1(prog, rr, sorted(solve_path(prog), key=lambda f: f.qual), "")
+    rr.require(n >= 1, "no search loop found on the solve path")
+
+
+# --------------------------------------------------------------------------------------- RS10
+@rule("RS10", ["C15", "C03", "C14"], "a rand set's list of fields to randomise holds used-random fields only", engine="DF", floor=1)
+def rs10(prog, rr):
+    c = prog.cls("RandSet")
+    g = c.methods.get("rand_fields")
+    rr.require(g is not None, "RandSet.rand_fields not found")
+    body = sig_body(g.node)
+    rr.require(len(body) == 1 and isinstance(body[0], ast.Return) and isinstance(body[0].value, ast.Attribute), "RandSet.rand_fields is not a plain getter")
+    lst = norm(body[0].value)
+    n = 0
+    from rules.r97_round2b import _guards
+    for m in c.methods.values():
+        for call in walk_local(m.node):
+            if isinstance(call, ast.Call) and call_name(call) in ("append", "extend", "insert") and recv_text(call) == lst and call.args:
+                n += 1
+                arg = norm(call.args[-1])
+                gs = [t for t, pos in _guards(m.node, call) if pos]
+                ok = any(t.replace(" ", "") == arg + ".is_used_rand" for t in gs)
+                rr.inst("RandSet.%s adds %s to %s under %s" % (m.name, arg, lst, gs))
+                if not ok:
+                    rr.finding(m, call, "RandSet." + m.name, "RS10: %s is added to %s (what rand_fields() returns) without the guard %s.is_used_rand: "
+                               "non-random fields then take up the swizzler's few slots, so a field with a dist constraint is left at the solver's "
+                               "choice in many calls and the weights are no longer followed" % (arg, lst, arg), text="rand list unguarded")
+    rr.require(n >= 1, "no writer of %s found" % lst)
+
+
+# --------------------------------------------------------------------------------------- RN8
+@rule("RN8", ["C17", "C03", "C08"], "declared-random (persistent) is never derived from used-as-random (a per-call flag)", engine="DF", floor=3)
+def rn8(prog, rr):
+    n = 0
+    for f in prog.funcs:
+        for st in walk_local(f.node):
+            if isinstance(st, ast.Assign):
+                for t in st.targets:
+                    if isinstance(t, ast.Attribute) and t.attr.endswith("is_declared_rand"):
+                        n += 1
+                        bad = [x for x in names_in(st.value) if x.split(".")[-1] == "is_used_rand"]
+                        # through one level of locals
+                        for nm in [x for x in names_in(st.value) if "." not in x]:
+                            for d in local_defs(f.node).get(nm, []):
+                                bad += [x for x in names_in(d) if x.split(".")[-1] == "is_used_rand"]
+                        rr.inst("%s: %s = %s" % (_q(f), norm(t), norm(st.value)[:50]))
+                        if bad:
+                            rr.finding(f, st, _q(f), "RN8: %s is set from %s - the flag of the call that happened to run last - instead of from the "
+                                       "declaration: an element appended after its list was last solved as a non-random part of a larger object is "
+                                       "never randomised again and gets neither pre_randomize nor post_randomize" % (norm(t), bad[0]),
+                                       text="declared from used")
+    rr.require(n >= 3, "writers of is_declared_rand not recognised (%d)" % n)
+
+
+# --------------------------------------------------------------------------------------- FT17
+def _idempotent_builder(f):
+    """build_field_model that constructs a model only when none exists (or defers to get_model())"""
+    makes = [n for n in walk_local(f.node) if isinstance(n, ast.Assign) and any(norm(t).endswith("_int_field_info.model") for t in n.targets)
+             and isinstance(n.value, ast.Call)]
+    if not makes:
+        return True
+    from rules.r97_round2b import _guards
+    for mk in makes:
+        gs = [t.replace(" ", "") for t, pos in _guards(f.node, mk) if pos]
+        if not any(g.endswith("_int_field_info.modelisNone") for g in gs):
+            return False
+    return True
+
+
+@rule("FT17", ["C18"], "a field's model is built once: build_field_model is called only for fields that have no model, unless every implementation keeps an existing one",
+      engine="XS", floor=4)
+def ft17(prog, rr):
+    from tables.exceptions import FT17_FRESH
+    from rules.r97_round2b import _guards
+    impls = [f for f in prog.funcs if f.name == "build_field_model" and f.params and f.params[0] == "self"]
+    rr.require(len(impls) >= 4, "build_field_model implementations not found (%d)" % len(impls))
+    non_idem = [f for f in impls if not _idempotent_builder(f)]
+    for f in impls:
+        rr.inst("%s keeps an existing model: %s" % (_q(f), f not in non_idem))
+    for g in prog.funcs:
+        for call in walk_local(g.node):
+            if not (isinstance(call, ast.Call) and call_name(call) == "build_field_model" and isinstance(call.func, ast.Attribute)):
+                continue
+            recv = recv_text(call)
+            if recv == "self" or recv.startswith("super()"):
+                continue
+            gs = [t.replace(" ", "") for t, pos in _guards(g.node, call) if pos]
+            guarded = any(t == recv + "._int_field_info.modelisNone" for t in gs)
+            key = _q(g)
+            rr.inst("%s calls %s.build_field_model: guarded=%s" % (_q(g), recv, guarded))
+            if guarded or key in FT17_FRESH:
+                continue
+            if non_idem:
+                rr.finding(g, call, _q(g), "FT17: %s.build_field_model() is called without checking that the field has no model yet, and %s replaces an "
+                           "existing model with a fresh one: a value written to that field before its owner was elaborated (self.e = E.B in __init__) "
+                           "is silently lost" % (recv, ", ".join(_q(x) for x in non_idem)), text="unguarded build_field_model")
+
+
+# --------------------------------------------------------------------------------------- EN1
+@rule("EN1", ["C18"], "the enumerator table cache is keyed by the enum class itself", engine="DF", floor=1)
+def en1(prog, rr):
+    f = prog.method("EnumInfo", "get")
+    e = f.params[0]
+    n = 0
+    defs = local_defs(f.node)
+
+    def key_ok(k):
+        if isinstance(k, ast.Name) and k.id != e:
+            ds = defs.get(k.id, [])
+            return bool(ds) and all(key_ok(d) for d in ds)
+        t = norm(k)
+        return t == e or t == "id(%s)" % e
+
+    for x in walk_local(f.node):
+        ks = []
+        if isinstance(x, ast.Subscript) and "_info_map" in norm(x.value):
+            ks.append(x.slice)
+        if isinstance(x, ast.Call) and call_name(x) in ("get", "setdefault", "pop") and "_info_map" in (recv_text(x) or "") and x.args:
+            ks.append(x.args[0])
+        if isinstance(x, ast.Compare) and any("_info_map" in norm(c) for c in x.comparators) and isinstance(x.ops[0], (ast.In, ast.NotIn)):
+            ks.append(x.left)
+        for k in ks:
+            n += 1
+            rr.inst("EnumInfo.get key %s" % norm(k))
+            if not key_ok(k):
+                rr.finding(f, x, "EnumInfo.get", "EN1: the enumerator table is looked up by %s instead of by the enum class: two distinct enum classes "
+                           "with the same name (a factory called twice, a class defined in a function) share one table, so reads return enumerators "
+                           "of the other type and writes of enumerators the first type lacks fail" % norm(k), text="enum cache key")
+    rr.require(n >= 2, "EnumInfo._info_map accesses not recognised (%d)" % n)
+
+
+# --------------------------------------------------------------------------------------- MERGE1
+def _paths(stmts):
+    """paths through a statement list (if/else only; loops/try are atomic). Each path: (list of leaf stmts, terminated?)"""
+    paths = [([], False)]
+    for st in stmts:
+        new = []
+        for p, done in paths:
+            if done:
+                new.append((p, True))
+                continue
+            if isinstance(st, ast.If):
+                for sub, d in _paths(st.body):
+                    new.append((p + sub, d))
+                for sub, d in _paths(st.orelse):
+                    new.append((p + sub, d))
+            elif isinstance(st, (ast.Continue, ast.Break, ast.Return, ast.Raise)):
+                new.append((p + [st], True))
+            else:
+                new.append((p + [st], False))
+        paths = new[:256]
+    return paths
+
+
+@rule("MERGE1", ["C19", "C14", "C10"], "in-place merge loops re-examine the merged element: no index advance in an iteration that removed the neighbour", engine="PATH", floor=2)
+def merge1(prog, rr):
+    n = 0
+    for f in prog.funcs:
+        for lp in [x for x in walk_local(f.node) if isinstance(x, ast.While)]:
+            incs = [x for x in ast.walk(lp) if isinstance(x, ast.AugAssign) and isinstance(x.op, ast.Add) and isinstance(x.target, ast.Name)]
+            idx = {x.target.id for x in incs}
+            pops = [x for x in ast.walk(lp) if isinstance(x, ast.Call) and call_name(x) == "pop" and x.args and set(names_in(x.args[0])) & idx]
+            dels = [x for x in ast.walk(lp) if isinstance(x, ast.Delete) and any(isinstance(t, ast.Subscript) and set(names_in(t.slice)) & idx for t in x.targets)]
+            if not (pops or dels):
+                continue
+            n += 1
+            rr.inst("%s: merge loop over index %s" % (_q(f), sorted(idx)))
+            for p, _ in _paths(lp.body):
+                rem = [i for i, st in enumerate(p) if any(x in pops for x in ast.walk(st)) or st in dels]
+                if not rem:
+                    continue
+                adv = [st for st in p[rem[0]:] if isinstance(st, ast.AugAssign) and st in incs]
+                if adv:
+                    rr.finding(f, adv[0], _q(f), "MERGE1: the index is advanced in the same iteration that merged and removed the next element: the "
+                               "merged entry is never compared with the element that moved into that position, so overlapping ranges survive as "
+                               "separate entries (a wildcard array then has more bins than matching values and a sample hits two bins)",
+                               text="advance after remove")
+                    break
+    rr.require(n >= 2, "in-place merge loops not recognised (%d)" % n)
+
+
+# --------------------------------------------------------------------------------------- NM5
+@rule("NM5", ["C20", "C09", "C04"], "per-call visitors leave nothing on the constraint/field objects they visit (except what is reset every call)", engine="EFF", floor=3)
+def nm5(prog, rr):
+    from tables.exceptions import NM5_OK
+    mv = prog.cls("ModelVisitor")
+    dr = prog.method("Randomizer", "do_randomize")
+    per_call = {call_name(c) for c in walk_local(dr.node) if isinstance(c, ast.Call)}
+    stores = []
+    for c in prog.subclasses(mv):
+        for m in c.methods.values():
+            if not m.name.startswith("visit_"):
+                continue
+            ps = set(m.params[1:])
+            for n in walk_local(m.node):
+                tg = n.targets if isinstance(n, ast.Assign) else [n.target] if isinstance(n, ast.AugAssign) else []
+                for t in tg:
+                    if isinstance(t, ast.Attribute):
+                        root = t
+                        while isinstance(root, (ast.Attribute, ast.Subscript)):
+                            root = root.value
+                        if isinstance(root, ast.Name) and root.id in ps:
+                            stores.append((c, m, n, t))
+    # resets: a visitor instantiated by do_randomize that stores a constant into the same attribute in the same visit method
+    resets = {(m.name, t.attr) for c, m, n, t in stores if isinstance(n, ast.Assign) and isinstance(n.value, ast.Constant) and c.name in per_call}
+    computed = {(m.name, t.attr) for c, m, n, t in stores if not (isinstance(n, ast.Assign) and isinstance(n.value, ast.Constant))}
+    for c, m, n, t in stores:
+        key = "%s.%s|%s" % (c.name, m.name, t.attr)
+        # a constant store is a reset only where it clears what another visitor computes, from a visitor do_randomize runs on every call
+        is_reset = isinstance(n, ast.Assign) and isinstance(n.value, ast.Constant) and c.name in per_call and (m.name, t.attr) in computed
+        ok = is_reset or (m.name, t.attr) in resets or key in NM5_OK
+        rr.inst("%s.%s stores %s (%s)" % (c.name, m.name, norm(t), "reset" if is_reset else "has per-call reset" if (m.name, t.attr) in resets else NM5_OK.get(key, "?")))
+        if not ok:
+            rr.finding(m, n, "%s.%s" % (c.name, m.name), "NM5: %s.%s stores %s on the visited object, which persists between randomize calls, and nothing "
+                       "resets it per call: what one call computed (e.g. the expansion of a solve_order directive over the list elements that "
+                       "existed then) is reused by later calls after the object has changed" % (c.name, m.name, norm(t)), text="store on visited " + t.attr)
+    rr.require(len(stores) >= 3, "visitor stores on visited objects not recognised (%d)" % len(stores))
+
+
+# --------------------------------------------------------------------------------------- RS11
+@rule("RS11", ["C20"], "solve_order expansion visits both sides of every directive unconditionally", engine="DF", floor=2)
+def rs11(prog, rr):
+    from rules.r97_round2b import _guards
+    f = prog.method("ExpandSolveOrderVisitor", "expand")
+    acc = [n for n in walk_local(f.node) if isinstance(n, ast.Call) and call_name(n) == "accept"]
+    rr.require(len(acc) >= 2, "accept calls not found in ExpandSolveOrderVisitor.expand")
+    for c in acc:
+        gs = [t for t, pos in _guards(f.node, c)]
+        extra = [t for t in gs if t.replace(" ", "") not in ("self.lhs", "notself.lhs")]
+        rr.inst("expand: %s under %s" % (norm(c), gs))
+        if extra:
+            rr.finding(f, c, "ExpandSolveOrderVisitor.expand", "RS11: the walk of one side of a solve_order directive is skipped under %s: the "
+                       "dependency is then never recorded and a chain a<b<c loses its transitivity when the middle field is not random in "
+                       "this call" % extra, text="conditional expand")
